@@ -28,7 +28,7 @@ CONSTANTS Deviations,    \* subset of DeviationNames; {} = the intended design
           MaxTotal,      \* bound on the number of slots of all layers of all batches together
           Validity,      \* "any" | "none" (sub-universe of columns without any validity buffer)
           ZeroLenBitmaps,\* may a layer without slots carry an (empty) validity bitmap
-          Mode,          \* "single" | "pair"
+          Mode,          \* "single" | "pair" | "directed" (the explicit columns RepDefOps!DirectedCols)
           PrintScn          \* print scenarios
 
 VARIABLES phase,   \* "pick" | "fill" | "ser" | "unr" | "done"
@@ -70,7 +70,8 @@ Init == /\ phase = "pick" /\ parts = <<>> /\ how = "one" /\ pages = <<>> /\ ctx 
         /\ us = <<>> /\ out = EmptySc(<<>>) /\ step = 0
 
 Pick == /\ phase = "pick"
-        /\ \E ks \in Shapes : parts' = <<EmptySc(ks)>>
+        /\ IF Mode = "directed" THEN \E c \in DirectedCols : parts' = <<c>>
+                                ELSE \E ks \in Shapes : parts' = <<EmptySc(ks)>>
         /\ phase' = "fill"
         /\ UNCHANGED <<how, pages, ctx, lv, us, out, step>>
 
@@ -190,6 +191,10 @@ RoundTrip ==
 \* a layer is reported without validity buffer only if it has no visible null
 NoLostNulls ==
   phase = "done" => \A k \in 1..NL(out) : (~out.hasv[k]) => \A j \in 1..Len(out.v[k]) : out.v[k][j] = 1
+
+\* tiling a column repeats its value
+TileIsRepeat == (Mode = "directed" /\ phase = "ser" /\ step = 0) =>
+                   Tree(Tile(parts[1], 3)) = Tree(parts[1]) \o Tree(parts[1]) \o Tree(parts[1])
 
 \* scenario printing (evaluated once per distinct state)
 Scenario == (PrintScn /\ phase = "ser" /\ step = 0) =>
